@@ -127,6 +127,23 @@ def default_cfg(job):
             "overrides": [], "links": [], "credits": []}
 
 
+def refused_tag_json(res):
+    """fixes/C07-reject-json-at-generated-function-tag.patch: right after DataPack.build(), compiling.build refuses a user json stored at
+    the key of a function tag it generates unless that json registers JMC's function itself.  Model/Alloc.v has the pinned behaviour (the
+    json replaces the tag — hypothesis tag_free of C07_load_tag / C07_tick_tag).  True iff the real compile gave that diagnostic AND the
+    trace really holds such a json at such a key: the compile is then compared like one that failed before build() (nothing emitted)."""
+    cfg = res.get("cfg")
+    if res["ok"] or not res.get("jmc") or not cfg or "minecraft" not in cfg["overrides"]:
+        return False
+    ff = "functions" if cfg["legacy"] else "function"
+    for op in res["ops"]:
+        for tag in ("load", "tick"):
+            if (op[0] == "jset" and op[1] == f"minecraft/tags/{ff}/{tag}" and f"JSON({op[1]})" in (res.get("msg") or "")
+                    and f'"{cfg["ns"]}:{cfg[tag]}"' not in op[2]):
+                return True
+    return False
+
+
 def case_term(job, res):
     """Coq term of one traced compile, or raises Unsupported."""
     if res.get("unsupported"):
@@ -134,7 +151,7 @@ def case_term(job, res):
     ops, b = [], None
     for op in res["ops"]:
         if op[0] == "build":
-            b = op[1]
+            b = None if refused_tag_json(res) else op[1]
         else:
             ops.append(op_term(op))
     cfg = res["cfg"] or default_cfg(job)
